@@ -89,9 +89,10 @@ Definition wf_rr (r : rr) : Prop :=
   valid_abs (r_owner r) /\ r_type r < 65536 /\ r_class r < 65536 /\ r_ttl r < 4294967296 /\
   wf_bytes (r_rdata r) /\ len (r_rdata r) < 65536.
 
-(* an RRset as the signer's contract has it: one owner, type, class and TTL *)
+(* an RRset as the signer's contract has it: one owner (in any ASCII case per
+   record, as zone data may have it), type, class and TTL *)
 Definition uniform (o : name) (t c ttl : N) (l : list rr) : Prop :=
-  Forall (fun r => r_owner r = o /\ r_type r = t /\ r_class r = c /\ r_ttl r = ttl) l.
+  Forall (fun r => canon (r_owner r) = canon o /\ r_type r = t /\ r_class r = c /\ r_ttl r = ttl) l.
 
 (* what a resolver may hold for an RRset that was signed with owner o:
    the owner with any ASCII case, or - when o is a wildcard name - any name
